@@ -121,6 +121,7 @@ impl FilesEntryIterator {
         {
             if self.current_file_index == self.file_list.len() {
                 // We've reached the end of the file list so there are no more tables to iterate
+                self.save_table_iter_status();
                 self.current_table_iter = None;
                 return Ok(());
             }
@@ -143,6 +144,7 @@ impl FilesEntryIterator {
         {
             if self.current_file_index == 0 {
                 // We've reached the start of the file list so there are no more tables to iterate
+                self.save_table_iter_status();
                 self.current_table_iter = None;
                 return Ok(());
             }
